@@ -1000,7 +1000,7 @@ class _HandoffStub(object):
 
     def __init__(self, environment, logic, **options):
         self.logic = logic
-        _HandoffStub.log.append([logic, []])
+        _HandoffStub.log.append([logic, [], type(self)])
 
     def _got(self, *fs):
         _HandoffStub.log[-1][1].extend(fs)
@@ -1049,8 +1049,15 @@ def make_handoff(env, ex):
     """the factory shortcuts detect a logic themselves when none is given: whatever solver object they create
     must be created for a logic that enables everything in the formulas it is then handed"""
     fac = env.factory
-    for attr in ("_all_solvers", "_all_unsat_core_solvers", "_all_qelims", "_all_interpolators"):
-        setattr(fac, attr, {"stub": _HandoffStub})
+    # one name, four registries, four different lists of supported logics (as 'z3' or 'bdd' are a solver, a
+    # quantifier eliminator, an interpolator ... with different LOGICS): whatever is created must be created
+    # for a logic of its own list
+    qf = [l for l in LG.PYSMT_LOGICS if l.quantifier_free]
+    lists = {"_all_solvers": list(LG.PYSMT_LOGICS), "_all_unsat_core_solvers": qf,
+             "_all_qelims": [l for l in LG.PYSMT_LOGICS if not l.quantifier_free],
+             "_all_interpolators": [l for l in qf if not l.theory.arrays]}
+    for attr, logics in lists.items():
+        setattr(fac, attr, {"stub": type("Stub" + attr, (_HandoffStub,), {"LOGICS": logics, "kind": attr})})
     m = env.formula_manager
     hq = m.Symbol("hq", mk_type(env, INT))
     hb = m.Symbol("hb", mk_type(env, ("BV", 4)))
@@ -1068,7 +1075,12 @@ def make_handoff(env, ex):
             return "handoff:%s:refused" % label.split("[")[0], None
         except Exception as e:
             return "handoff:%s:raised:%s" % (label.split("[")[0], type(e).__name__), None
-        for L, fs in _HandoffStub.log:
+        for L, fs, cls in _HandoffStub.log:
+            if not any(L is x or L == x for x in cls.LOGICS):
+                return "handoff:%s:created" % label.split("[")[0], (
+                    "handoff:" + label.split("[")[0], ["unsupported-logic"],
+                    "factory.%s created its %s object for logic %s, which that class does not list as supported"
+                    % (label, cls.kind, L.name))
             need = set()
             for g in fs:
                 need |= set(ex.info(g)[1])
